@@ -341,7 +341,9 @@ def shrink(lines, pred, keep_head=1, budget=150):
 
 def run_cmd(cmd, text, timeout=300):
     try:
-        return subprocess.run(cmd, input=text, stdout=subprocess.PIPE, stderr=subprocess.PIPE, text=True, timeout=timeout)
+        # (stack memory of a returned frame is poisoned too: a pointer into a dead frame that the library kept is reported when used)
+        env = dict(os.environ, ASAN_OPTIONS=os.environ.get("ASAN_OPTIONS", "detect_stack_use_after_return=1"))
+        return subprocess.run(cmd, input=text, stdout=subprocess.PIPE, stderr=subprocess.PIPE, text=True, timeout=timeout, env=env)
     except subprocess.TimeoutExpired as e:
         class R: pass
         r = R(); r.stdout = (e.stdout or b"").decode() if isinstance(e.stdout, bytes) else (e.stdout or ""); r.stderr = "TIMEOUT"; r.returncode = -9
